@@ -173,7 +173,7 @@ func TestC17(t *testing.T) {
 	if r.Only < 0 {
 		smoke(t, r, dir)
 	}
-	r.Require("uploads_checked", "failed_uploads", "retries_after_failure", "idle_periods_checked", "cancellations_checked", "uploads_with_write_during_window", "timelines", "suppressed_uploads_without_change", "uploads_hanging_past_the_limit", "timelines_on_reopened_database", "lone_activations", "lone_version_deletions")
+	r.Require("uploads_checked", "failed_uploads", "retries_after_failure", "idle_periods_checked", "cancellations_checked", "uploads_with_write_during_window", "timelines", "suppressed_uploads_without_change", "uploads_hanging_past_the_limit", "timelines_on_reopened_database", "lone_activations", "failed_writes_in_timelines", "lone_version_deletions")
 	r.Rule("seeded timelines of ~20 events over virtual hours: sleep d in {0,1s,30s,59s,60s,61s,5min,1h}, bursts of 1-3 real database writes (put/activate/delete), endpoint mode switches (ok / 403 not retryable / 500 retryable / hold for d with a write landing inside the held upload), then a quiet tail, an idle hour and cancellation at a random point of the minute cycle. Distinct = (endpoint mode at upload, writes during window?, outcome) and the smoke case through server.New")
 }
 
@@ -189,7 +189,9 @@ func timeline(t *testing.T, r *evid.Run, dir string, idx int) {
 	r.Eval(1)
 	rng := r.Rand(uint64(idx))
 	var trace []tevent
-	path := filepath.Join(dir, fmt.Sprintf("t%d.db", idx))
+	os.MkdirAll(filepath.Join(dir, fmt.Sprintf("t%d", idx)), 0o700)
+	path := filepath.Join(dir, fmt.Sprintf("t%d", idx), "db")
+	defer os.RemoveAll(filepath.Dir(path))
 	key := realdb.DummyKey("c17")
 	fail := func(k, msg string, extra map[string]any) {
 		d := map[string]any{"timeline": trace}
@@ -235,7 +237,15 @@ func timeline(t *testing.T, r *evid.Run, dir string, idx int) {
 			defer wmu.Unlock()
 			// a snapshot after EVERY single save: the loop may read the file between any two of them
 			before, _ := os.ReadFile(path)
-			switch rng.IntN(7) {
+			switch rng.IntN(8) {
+			case 7:
+				// a write that FAILS (the file system refuses the save): the database has not been written
+				// (the backup task is parked while the directory is away: it must not find the file missing)
+				synctest.Wait()
+				realdb.BreakDir(path, func() {
+					kdb.Put(su, fmt.Sprintf("k%d", rng.IntN(4)), []byte(fmt.Sprintf("lost-%d-%d", idx, nput)))
+				})
+				r.Count("failed_writes_in_timelines", 1)
 			case 4:
 				// an activation on its own (the last write for a while may well be one): switch "seed" to another of its versions
 				if in, err := kdb.Info(su, "seed"); err == nil && len(in.Versions) >= 2 {
